@@ -19,6 +19,9 @@ Decided statically:
   R-C14-7  alignedMalloc writes (memset/memcpy-like calls, indexed stores) only inside [block, block + size).
   R-C14-8  lock discipline of helper records in malloc.cpp (statistics tables, caches): a data member that some member function
            accesses while holding the record's mutex is never accessed without it outside constructors/destructor.
+  R-C14-9  alignedMalloc and alignedFree are compiled on the same side of the library / includer boundary (both bodies in
+           malloc.cpp, or both in a header); if one is inline in a header its #if ladder is evaluated with the includer's macros, so
+           the release family must match the allocation family for every pair (library configuration, includer configuration).
   R-C14-4  isAligned(p, a) is  p % a == 0  (or the equivalent mask test).
   W-C14    static_assert witnesses: AlignedVector<T> is std::vector<T, aligned_allocator<T,64>>, the allocator that
            std::vector really allocates through (allocator_traits::rebind_alloc<T>) is aligned_allocator<T,64>, its
@@ -423,6 +426,64 @@ def check_malloc_cpp(ctx, tu, tag, keytag):
         if not bad:
             ctx.ok(R, inst, '%s(ptr), the release primitive of %s' % (' / '.join(rel_names), ' / '.join(sorted(k for k in producers if not isinstance(k, tuple))) or '?'),
                    tu.fn_loc(g))
+        if mpaths is not None:
+            # R-C14-9 (check_compilation_sides): which unit compiles each side, and which primitives it selects in this configuration
+            wants = {}
+            for q, (where, how) in producers.items():
+                if not isinstance(q, tuple):
+                    wants[q] = how['free'] if isinstance(how, dict) else FAMILIES[q]['free']
+            _SIDES.append(dict(tag=tag, keytag=keytag, unit=tu.unit, wants=wants, rel=set(rel_names),
+                               alloc=(tu.fn_file(f), tu.fn_loc(f)), free=(tu.fn_file(g), tu.fn_loc(g))))
+    return n
+
+
+# ================================================================================================
+#  R-C14-9  the two sides are compiled under one configuration
+# ================================================================================================
+_SIDES = []     # one record per analysed configuration of malloc.cpp, filled by check_malloc_cpp
+
+
+def check_compilation_sides(ctx):
+    """alignedMalloc and alignedFree select their back end with the preprocessor.  A side whose body lies in malloc.cpp is compiled
+    once, with the configuration of the library build; a side whose body lies in a header is compiled again in every including
+    translation unit, with *that* unit's macros (RKCOMMON_TASKING_* are command-line definitions, no installed header fixes them).
+    If the two sides are compiled on different sides of that boundary, every (library configuration, includer configuration) pair is
+    possible and the release primitive picked by one must match the allocation primitive picked by the other in each of them."""
+    R = 'R-C14-9'
+    n = 0
+    for L in _SIDES:
+        n += 1
+        inst = 'alignedMalloc / alignedFree compiled under one configuration [library built as %s]' % L['tag']
+        a_hdr = L['alloc'][0] != L['unit']
+        f_hdr = L['free'][0] != L['unit']
+        if a_hdr == f_hdr:
+            ctx.ok(R, inst, 'both bodies are compiled in %s (%s, %s): one set of macros selects both primitives'
+                   % ('the including unit' if a_hdr else 'the library unit', L['alloc'][0], L['free'][0]), L['free'][1])
+            continue
+        bad = None
+        for C in _SIDES:
+            # the header side as an includer configured like C compiles it, the other side as the library configured like L does
+            wants = (C if a_hdr else L)['wants']
+            rel = (C if f_hdr else L)['rel']
+            for q, want in sorted(wants.items()):
+                for r in sorted(rel):
+                    if r != want and bad is None:
+                        bad = (C, q, r, want)
+        hdr_name, hdr = ('alignedMalloc', L['alloc']) if a_hdr else ('alignedFree', L['free'])
+        lib_name, lib = ('alignedFree', L['free']) if a_hdr else ('alignedMalloc', L['alloc'])
+        if bad is None:
+            ctx.ok(R, inst, '%s is defined in the header %s and compiled by the includer, %s in %s; every analysed configuration selects '
+                   'the same family on both sides' % (hdr_name, hdr[0], lib_name, lib[0]), hdr[1])
+            continue
+        C, q, r, want = bad
+        ctx.violation(R, inst, '%s is defined inline in the header %s, so its preprocessor ladder is evaluated with the macros of each '
+                      'including translation unit, while %s stays in %s and is compiled once with the library\'s configuration; the '
+                      'RKCOMMON_TASKING_* macros that select the back end are command-line definitions, not fixed by any header.  '
+                      'Library built as [%s] and includer compiled as [%s]: a block obtained from %s is released with %s; required: %s '
+                      '(both sides must be compiled in the same unit, or select a back end that does not depend on the includer)'
+                      % (hdr_name, hdr[0], lib_name, lib[0], L['tag'] if not a_hdr else C['tag'], C['tag'] if not a_hdr else L['tag'],
+                         q, r, want), hdr[1],
+                      key='%s|%s|%s|%s:backend-selected-by-includer' % (R, hdr[0], hdr_name, L['keytag']))
     return n
 
 
@@ -1404,6 +1465,8 @@ def run(ctx):
     ctx.describe('R-C14-7', 'alignedMalloc writes only inside the size bytes of the block it obtained')
     ctx.describe('R-C14-8', 'bookkeeping records in malloc.cpp: a member that is accessed under the record\'s mutex somewhere is accessed under '
                             'it everywhere (alignedMalloc/alignedFree run concurrently)')
+    ctx.describe('R-C14-9', 'alignedMalloc and alignedFree are compiled on the same side of the library/includer boundary, or select '
+                            'matching families for every (library configuration, includer configuration) pair')
     ctx.describe('W-C14', 'AlignedVector<T> allocates through aligned_allocator<T,64> (static_assert witnesses)')
     ctx.assume('scalable_aligned_malloc, _mm_malloc, posix_memalign honour their alignment and size arguments; std::vector uses '
                'its allocator as the standard prescribes')
@@ -1422,10 +1485,12 @@ def run(ctx):
     tus = ctx.front.parse_many(jobs)
     ctx.note('the _WIN32 branch of malloc.cpp (_aligned_malloc/_aligned_free) cannot be parsed with the Linux headers and is not analysed')
     n1 = n2 = n3 = n4 = 0
+    del _SIDES[:]
     for (c, tag, ex, keytag), tu in zip(mal, tus):
         n1 += check_malloc_cpp(ctx, tu, tag, keytag)
         check_lock_discipline(ctx, tu, tag)
     check_lock_witness(ctx)
+    n9 = check_compilation_sides(ctx)
     for (c, std, tag), tu in zip(drv, tus[len(mal):]):
         _LIB[id(tu)] = next((t for (c2, _t, ex, _k), t in zip(mal, tus) if c2 == c and ex == ND), None)
         n2 += check_allocator(ctx, tu, tag)
@@ -1437,6 +1502,7 @@ def run(ctx):
         nw += check_witness(ctx, 'g++', 'c++11', 'g++ c++11')
         nw += check_witness(ctx, 'clang++', 'gnu++17', 'clang++ gnu++17')
     ctx.floor('R-C14-1', n1, 2 * len(mal), 'alignedMalloc + alignedFree per allocator configuration')
+    ctx.floor('R-C14-9', n9, len(mal), 'one placement obligation per allocator configuration (both sides of R-C14-1 decided)')
     ctx.floor('R-C14-2', n2, 24 * len(drv), '10 instantiations x (allocate, deallocate, max_size) + 2 hinted overloads per driver parse')
     n5 = sum(1 for o in ctx.obl if o['rule'] == 'R-C14-5')
     ctx.floor('R-C14-5', n5, 8 * len(drv), 'construct() of the 10 instantiations per driver parse')
